@@ -88,7 +88,7 @@ Definition tx_events (sc : schema) (topo : list nat) (ops : list sched_op) (hl :
   let act := activated sc r in
   let deact := deactivated sc topo r in
   let vapp := {| v_active := tx_target r; v_clock := tx_after r; v_qtick := qt; v_running := true;
-                 v_window := false; v_applied := true |} in
+                 v_window := true; v_applied := true |} in
   let vsub := {| v_active := if tx_processed r then tx_target r else odd_states (tx_mach_after r);
                  v_clock := tx_mach_after r; v_qtick := qt;
                  v_running := true; v_window := false; v_applied := true |} in
